@@ -223,6 +223,7 @@ type Spec struct {
 	PoolNil     bool
 	Now         *[5]time.Time
 	MsgMut      []func(q *pb.QuoteV4)
+	ReuseGetterBuffer bool // the scripted getter hands out every body in one reused buffer
 	Honest      bool     // the generator's claim: nothing in this world should make verification fail
 	Fault       string   // name of the injected fault ("" = none)
 }
@@ -264,6 +265,12 @@ type World struct {
 type Getter struct {
 	M    map[string]*Response
 	URLs []string
+	// ReuseBuffer: like a client with one receive buffer, every body is handed out in the SAME backing array, which is
+	// overwritten by the next request.  NOT used by any check: the unchanged library itself keeps references into the bodies
+	// it was given (x509.ParseRevocationList aliases its input), so honest worlds are rejected under such a getter — the
+	// properties are read over getters that do not touch a body after returning it (DESIGN.md O-10)
+	ReuseBuffer bool
+	buf         []byte
 }
 
 func (g *Getter) Get(u string) (map[string][]string, []byte, error) {
@@ -271,6 +278,19 @@ func (g *Getter) Get(u string) (map[string][]string, []byte, error) {
 	r, ok := g.M[u]
 	if !ok || r.Err {
 		return nil, nil, fmt.Errorf("scripted getter: cannot fetch %s", u)
+	}
+	if g.ReuseBuffer {
+		if g.buf == nil {
+			g.buf = make([]byte, 1<<20)
+		}
+		for i := range g.buf[:cap(g.buf)] {
+			g.buf[i] = 0xEE
+		}
+		if len(r.Body) > cap(g.buf) {
+			g.buf = make([]byte, 2*len(r.Body))
+		}
+		n := copy(g.buf[:cap(g.buf)], r.Body)
+		return r.Headers, g.buf[:n:n], nil
 	}
 	return r.Headers, r.Body, nil
 }
@@ -586,6 +606,22 @@ func (w *World) crl(c *CrlSpec) *Response {
 	return &Response{Body: der}
 }
 
+// ReplacePckCrl / ReplaceRootCrl re-issue a CRL of an already built world from a changed spec (same certificates, same CRL
+// number): what an endpoint serves later in the life of the same process.
+func (w *World) ReplacePckCrl(c CrlSpec) {
+	w.Spec.PckCrl = c
+	r := w.crl(&w.Spec.PckCrl)
+	if !r.Err {
+		r.Headers = w.Getter.M[w.PckCrlURL].Headers
+	}
+	w.Getter.M[w.PckCrlURL] = r
+}
+
+func (w *World) ReplaceRootCrl(i int, c CrlSpec) {
+	w.Spec.RootCrls[i] = c
+	w.Getter.M[w.RootCrlURLs[i]] = w.crl(&w.Spec.RootCrls[i])
+}
+
 // Layout-independent serialisers for the two signed byte strings (own field order, sequential appends).
 func HeaderBytes(h *pb.Header) []byte {
 	var b []byte
@@ -689,7 +725,7 @@ func Build(s *Spec) *World {
 	}
 	w.Quote = q
 	// --- collateral
-	g := &Getter{M: map[string]*Response{}}
+	g := &Getter{M: map[string]*Response{}, ReuseBuffer: s.ReuseGetterBuffer}
 	w.Getter = g
 	leafSgx := s.Cert(s.Chain[0].Role).Sgx
 	fm := ""
